@@ -3,13 +3,12 @@ sys.path.insert(0, '/verif'); sys.path.insert(0, '/verif/tools')
 import regress
 from concurrent.futures import ProcessPoolExecutor
 first = {
- "C01-f1": "C02 (own property: ANALYSIS-ERROR, a statement no scenario reaches)", "C01-f2": "C01", "C02-f1": "C01, C02, C03", "C02-f2": "C01, C02, C03",
- "C03-f1": "C03, C05", "C03-f2": "C03, C11", "C04-f1": "none", "C04-f2": "none", "C05-f1": "C03, C05", "C05-f2": "C03, C11 (own property: ANALYSIS-ERROR)",
- "C06-f1": "C06, C13", "C06-f2": "none", "C07-f1": "none", "C07-f2": "none", "C08-f1": "C08", "C08-f2": "none", "C09-f1": "C09", "C09-f2": "none",
- "C10-f1": "C01 (own property silent)", "C10-f2": "C01, C07, C10, C15", "C11-f1": "C11", "C11-f2": "C03, C05 (own property silent)", "C12-f1": "C12", "C12-f2": "C12",
- "C13-f1": "none", "C13-f2": "none", "C14-f1": "none", "C14-f2": "none", "C15-f1": "none", "C15-f2": "C04 (own property silent)", "C16-f1": "C16", "C16-f2": "none",
- "C17-f1": "none", "C17-f2": "none"}
-jobs = [(os.path.basename(d), d + "/patch.diff", regress.PROPS) for d in sorted(glob.glob("/verif/seeded/*-f*"))]
+ "C01-g1": "none", "C01-g2": "C01, C07, C10", "C02-g1": "C03 (own property silent)", "C02-g2": "C02", "C03-g1": "none", "C03-g2": "C03, C05",
+ "C04-g1": "none", "C04-g2": "none", "C05-g1": "C03, C05, C11", "C05-g2": "C01, C06 (own property silent)", "C06-g1": "C05, C07 (own property silent)", "C06-g2": "C06",
+ "C07-g1": "C01, C07, C10", "C07-g2": "C01, C07, C10", "C08-g1": "none", "C08-g2": "none", "C09-g1": "C09", "C09-g2": "none", "C10-g1": "C10, C13", "C10-g2": "C10",
+ "C11-g1": "none", "C11-g2": "C11", "C12-g1": "none (ANALYSIS-ERROR in C01/C02/C03/C05/C11)", "C12-g2": "none", "C13-g1": "C13", "C13-g2": "none", "C14-g1": "none", "C14-g2": "C14",
+ "C15-g1": "C15", "C15-g2": "none", "C16-g1": "none", "C16-g2": "C16", "C17-g1": "C17", "C17-g2": "none"}
+jobs = [(os.path.basename(d), d + "/patch.diff", regress.PROPS) for d in sorted(glob.glob("/verif/seeded/*-g*"))]
 with ProcessPoolExecutor(max_workers=12) as ex:
     for name, res in ex.map(regress._one, jobs):
         own = name.split("-")[0]
